@@ -629,6 +629,135 @@ fn case(max_len: usize) -> BoxedStrategy<Case> {
         .boxed()
 }
 
+// ---------------------------------------------------------------- foreign bodies
+
+/// BEVE bodies that are NOT a typed array of the requested element type: generic
+/// arrays of every length class (rows, strings, mixed values), maps, scalars.
+#[derive(Debug, Clone, Serialize, Deserialize, Hash, PartialEq, Eq)]
+pub struct Foreign {
+    pub shape: u8,
+    pub n: usize,
+    pub seed: u64,
+    pub ty: Ty,
+}
+
+fn foreign_body(f: &Foreign) -> Vec<u8> {
+    let n = f.n;
+    match f.shape % 7 {
+        0 => beve::to_vec(&(0..n).map(|i| vec![i as f64, 0.5]).collect::<Vec<Vec<f64>>>()).unwrap(),
+        1 => beve::to_vec(&(0..n).map(|i| format!("s{i}")).collect::<Vec<String>>()).unwrap(),
+        2 => beve::to_vec(&serde_json::Value::Array(
+            (0..n)
+                .map(|i| if i % 2 == 0 { serde_json::json!(i) } else { serde_json::json!("x") })
+                .collect(),
+        ))
+        .unwrap(),
+        3 => beve::to_vec(&(0..n).map(|i| (i as u8, i as f64)).collect::<Vec<(u8, f64)>>()).unwrap(),
+        4 => beve::to_vec(&serde_json::json!({"a": n, "b": [1, 2, 3]})).unwrap(),
+        5 => beve::to_vec(&format!("string-{n}")).unwrap(),
+        _ => beve::to_vec(&(0..n).map(|_| Vec::<u8>::new()).collect::<Vec<Vec<u8>>>()).unwrap(),
+    }
+}
+
+fn check_foreign_for<T>(f: &Foreign) -> CheckResult
+where
+    T: Elem + Serialize + DeserializeOwned,
+{
+    let body = foreign_body(f);
+    let msg = Message::builder().body_bytes(body.clone()).body_format(repe::BodyFormat::Beve).build();
+    let generic: Result<Vec<T>, _> = msg.beve_body();
+    let bulk: Result<Vec<T>, _> = msg.decode_typed_slice();
+    // Differential: whatever the bulk decoder accepts, the generic decoder must
+    // accept with the same elements — otherwise the body was reinterpreted.
+    if let Ok(v) = &bulk {
+        match &generic {
+            Ok(g) => ensure!(
+                bits(v) == bits(g),
+                "foreign-body-reinterpreted",
+                "{}: bulk decoder returned {} elements that differ from the generic decoder's for body {:02x?}..",
+                T::NAME,
+                v.len(),
+                &body[..body.len().min(12)]
+            ),
+            Err(e) => {
+                return Err(Fail::new(
+                    "foreign-body-reinterpreted",
+                    format!(
+                        "{}: decode_typed_slice accepted a body (shape {}, n {}) as {} elements, which the generic decoder rejects as Vec<{}>: {e}",
+                        T::NAME,
+                        f.shape % 7,
+                        f.n,
+                        v.len(),
+                        T::NAME
+                    ),
+                ));
+            }
+        }
+    }
+    // The slice routes must agree with the message-level decoder.
+    let router = Router::new()
+        .with_typed_slice::<T, T, _>("/s", |v: Vec<T>| Ok(v))
+        .with_typed_slice_ref::<T, T, _>("/r", |v: &[T]| Ok(v.to_vec()));
+    for path in ["/s", "/r"] {
+        let req = Message::builder()
+            .id(1)
+            .query_str(path)
+            .query_format(QueryFormat::JsonPointer)
+            .body_bytes(body.clone())
+            .body_format(repe::BodyFormat::Beve)
+            .build();
+        let wire = req.to_vec();
+        for view in [false, true] {
+            let h = router.get(path).unwrap();
+            let r = if view {
+                h.handle_view(&MessageView::from_slice(&wire).unwrap(), &CallContext::detached(path))
+            } else {
+                h.handle(&req)
+            };
+            let accepted = matches!(&r, Ok(m) if m.header.ec == 0);
+            ensure!(
+                accepted == bulk.is_ok(),
+                "route-vs-decoder-disagree",
+                "{}: route {path} (view={view}) accepted={accepted} but decode_typed_slice ok={} for foreign body shape {} n {}",
+                T::NAME,
+                bulk.is_ok(),
+                f.shape % 7,
+                f.n
+            );
+        }
+    }
+    Ok(CaseInfo::new(f.n % 64 == 0 || f.n == 0)
+        .class(format!("shape={}", f.shape % 7))
+        .class(if bulk.is_ok() { "accepted" } else { "rejected" }))
+}
+
+fn check_foreign(f: &Foreign) -> CheckResult {
+    match f.ty {
+        Ty::U8 => check_foreign_for::<u8>(f),
+        Ty::U16 => check_foreign_for::<u16>(f),
+        Ty::U32 => check_foreign_for::<u32>(f),
+        Ty::U64 | Ty::U128 => check_foreign_for::<u64>(f),
+        Ty::I8 => check_foreign_for::<i8>(f),
+        Ty::I16 => check_foreign_for::<i16>(f),
+        Ty::I32 => check_foreign_for::<i32>(f),
+        Ty::I64 | Ty::I128 => check_foreign_for::<i64>(f),
+        Ty::F32 | Ty::F16 | Ty::BF16 | Ty::C32 => check_foreign_for::<f32>(f),
+        Ty::F64 | Ty::C64 => check_foreign_for::<f64>(f),
+    }
+}
+
+fn foreign_cases() -> Vec<Foreign> {
+    let mut v = Vec::new();
+    for shape in 0..7u8 {
+        for n in [0usize, 1, 2, 63, 64, 65, 127, 128, 129, 256, 1024, 4096, 16384] {
+            for ty in [Ty::U8, Ty::I32, Ty::F32, Ty::F64, Ty::U64] {
+                v.push(Foreign { shape, n, seed: 0, ty });
+            }
+        }
+    }
+    v
+}
+
 fn corpus() -> Vec<Case> {
     // Regression inputs: the empty vector in the generic encoding (finding F6).
     TYS.iter()
@@ -664,6 +793,19 @@ pub fn run(ctx: &Ctx, rep: &Report) {
         }
     }
     run_enum(ctx, rep, "grid", &grid, true, &check);
+    run_enum(ctx, rep, "foreign", &foreign_cases(), false, &check_foreign);
+    run_prop(
+        ctx,
+        rep,
+        "foreign-random",
+        ctx.tier.pick(3_000, 60_000),
+        &|| {
+            (0u8..7, prop_oneof![0usize..200, (0usize..80).prop_map(|k| k * 64), 0usize..5000], prop::sample::select(TYS.to_vec()))
+                .prop_map(|(shape, n, ty)| Foreign { shape, n, seed: 0, ty })
+                .boxed()
+        },
+        &check_foreign,
+    );
     run_prop(ctx, rep, "random", ctx.tier.pick(20_000, 400_000), &|| case(4096), &check);
     // a few large slices
     let large: Vec<Case> = [1usize << 16, 1 << 20]
@@ -687,6 +829,7 @@ pub fn run(ctx: &Ctx, rep: &Report) {
 pub fn replay(sub: &str, case: &Value) -> Result<(), Fail> {
     match sub {
         "corpus" | "grid" | "random" | "large" => replay_case::<Case>(case, &check),
+        "foreign" | "foreign-random" => replay_case::<Foreign>(case, &check_foreign),
         s if s.starts_with("net") => super::c08_net::replay(s, case),
         _ => Err(Fail::new("replay-unknown-sub", sub.to_string())),
     }
